@@ -147,19 +147,38 @@ def main(run):
         run.violation(f'sequence|{key[:90]}', f'{P.where(nb) if nb else "path.rs"} NormalizedSegmentsImpl::new: {pr}')
     run.floor('sequence_step_cases', 5, 'abstract cases (stack top x relative) of the normalising step')
     join_loop(run, P)
-    # the normalised COPY: PathImpl::normalized folds segments() of self through symbolic_push (dispatch decided under C10) into the EMPTY
-    # path of the kind of self, then ends it with an empty segment iff the last segment was "." / ".." and something was kept
+    # the normalised COPY (PathImpl::normalized).  Two forms are decided:
+    #  * a REWRITE: copy self, normalise the copy in place (the rules above), end it with an empty segment iff the last segment of self is a dot
+    #    segment and the normalised copy is not empty  (Engine S with the last segment as the text);
+    #  * a FOLD of segments() through symbolic_push into the EMPTY path of the kind of self (structural fold rule + dispatch of the step).  The fold
+    #    is right only if its step keeps every segment that is not a dot segment: a step that leaves out an empty segment on an empty path loses
+    #    a leading empty segment ("//a" -> "/a"), unless the fold itself excludes that case.
     from .. import symstep
-    probs, cst = symstep.analyse_append(P, symstep.COPY, True)
-    run.cov['copy_fold_paths'] = cst.get('iteration_paths', 0) + cst.get('tail_paths', 0) + cst.get('start_paths', 0)
+    from ..symex import loop_info as _loops
     cb = P.bodies.get(symstep.COPY)
-    for pr in probs:
-        run.violation(f'copy|{pr[:90]}', f'{P.where(cb) if cb else "path.rs"} PathImpl::normalized: {pr}')
-    run.floor('copy_fold_paths', 5, 'paths of PathImpl::normalized (start, one iteration, tail) checked against the fold')
-    probs, sst = symstep.analyse_push(P)
-    sb = P.bodies.get(symstep.FN)
-    for pr in probs:
-        run.violation(f'copy|step|{pr[:90]}', f'{P.where(sb) if sb else "path_mut.rs"} PathMutImpl::symbolic_push (the step of the normalised copy): {pr}')
+    is_fold = cb is not None and (bool(_loops(cb)) or any((mir.callee(t) or '').endswith('Iterator::fold') for _, t in P.calls(cb)))
+    if cb is None:
+        run.violation('copy|anchor', f'{symstep.COPY} not found')
+    elif is_fold:
+        probs, cst = symstep.analyse_append(P, symstep.COPY, True)
+        run.cov['copy_paths'] = cst.get('iteration_paths', 0) + cst.get('tail_paths', 0) + cst.get('start_paths', 0)
+        for pr in probs:
+            run.violation(f'copy|{pr[:90]}', f'{P.where(cb)} PathImpl::normalized: {pr}')
+        probs, sst = symstep.analyse_push(P)
+        sb = P.bodies.get(symstep.FN)
+        for pr in probs:
+            run.violation(f'copy|step|{pr[:90]}', f'{P.where(sb) if sb else "path_mut.rs"} PathMutImpl::symbolic_push (the step of the normalised copy): {pr}')
+        if 'skip' in sst.get('empty_on_empty', ()):
+            run.violation('copy|empty-first-segment-dropped', f'{P.where(cb)} PathImpl::normalized hands every segment to symbolic_push, which leaves out an empty segment when nothing has been kept '
+                          f'before it ({P.where(sb) if sb else "path_mut.rs"}): an empty segment that becomes the first one is lost — "//a".normalized() is "/a", "a/..//b" gives "b" — '
+                          'while the normalised sequence and the in-place rewrite keep it ("//a", ".//b")')
+    else:
+        probs, cst = symstep.analyse_copy_rewrite(P)
+        run.cov['copy_paths'] = cst.get('returns', 0)
+        run.cov['copy_states'] = cst.get('configs', 0)
+        for pr in probs:
+            run.violation(f'copy|{pr[:90]}', f'{P.where(cb)} PathImpl::normalized: {pr}')
+    run.floor('copy_paths', 5, 'paths of PathImpl::normalized checked (fold: start, one iteration, tail; rewrite: returns of the abstract execution)')
     run.floor('path_closure_checks', 20, 'normalize paths whose result language was checked')
     run.floor('kind_checks', 20, 'absolute/relative preservation checks')
     return run.finish('model_checking', {
